@@ -406,6 +406,9 @@ func (e *Engine) Corpus() ([]Input, error) {
 	// the feature-matrix documents of the typed exchange (internal/xch/matrix.go): every parameter cell, media type,
 	// encoding, response structure and security structure is also a generation workload
 	for _, p := range xch.WriteMatrix(filepath.Join(e.S.Dir, "matrix")) {
+		if strings.HasSuffix(p, "_b.json") {
+			continue // the same document again (the exchange checks generate it in a second configuration)
+		}
 		for _, fn := range []string{"default", "all-features"} {
 			out = append(out, Input{Name: "matrix/" + filepath.Base(p) + " [" + fn + "]", In: GenInput{Spec: p, Config: featureConfigs()[fn]}, Class: "corpus"})
 		}
